@@ -55,6 +55,16 @@ def events_for(env, rng, thorough):
         ev.append({"op": "QPickle", "call": name, "eq": bool(q3 == q1), "hash1": hash(q1), "hash2": hash(q3), "desc1": desc(q1), "desc2": desc(q3)})
         o = P.outcome(q1.SetUnknownCaption, "x")
         ev.append({"op": "ReadOnly", "call": name, "cls": o[2] if o[0] == "exc" else "no exception"})
+    # composing maps with the same factors in another order (same rendered strings, different maps): unequal quantities
+    for (c1, u1), (c2, u2) in (((("length", "m")), ("time", "s")), (("depth", "km"), ("length", "m")), (("mass", "kg"), ("temperature", "K"))):
+        for e1, e2 in ((1, -1), (2, -1), (1, 1)):
+            a = ObtainQuantity(OrderedDict([(c1, [u1, e1]), (c2, [u2, e2])]))
+            b = ObtainQuantity(OrderedDict([(c2, [u2, e2]), (c1, [u1, e1])]))
+            ev.append({"op": "DiffReq", "call": "map %s%d.%s%d vs the same factors in the other order" % (u1, e1, u2, e2), "eq": bool(a == b), "ne": bool(a != b),
+                       "hash1": hash(a), "hash2": hash(b), "desc1": repr(qalg.q_snapshot(a)[:2]), "desc2": repr(qalg.q_snapshot(b)[:2])})
+            sa, sb = Scalar(a, 1.0), Scalar(b, 1.0)
+            ev.append({"op": "DiffReq", "call": "Scalars on map %s%d.%s%d vs the other order" % (u1, e1, u2, e2), "eq": bool(sa == sb), "ne": bool(sa != sb),
+                       "hash1": 0, "hash2": 0, "desc1": repr(qalg.q_snapshot(a)[:2]), "desc2": repr(qalg.q_snapshot(b)[:2])})
     # equal / different resolutions
     for i in range(0, len(made) - 1):
         (n1, a), (n2, b) = made[i], made[(i * 7 + 3) % len(made)]
